@@ -1095,3 +1095,20 @@ N('NMO-element-two-tests', ['C05', 'C04'], 'index.py', 'Index._loc_to_iloc',
 B('PL-inline-single-thread-lazy-map', ['C18'], 'node_iter.py', 'IterNodeDelegate._apply_iter_items_parallel',
   '        with pool_executor(max_workers=max_workers) as executor:', '        if use_threads and max_workers == 1:\n            yield from zip(func_keys, map(func, arg_gen()))\n            return\n        with pool_executor(max_workers=max_workers) as executor:',
   'I.parallel-label-pairing', '_apply_iter_items_parallel')
+
+# ---------------------------------------------------------------------------------- exporters fall back to the container's config (C17)
+B('EC-zip-tsv-no-fallback', ['C17'], 'store_client_mixin.py', 'StoreClientMixin.to_zip_tsv',
+  '        config = config if not config is None else self._config\n', '', 'G.exporter-config-fallback', 'to_zip_tsv')
+B('EC-sqlite-default-config', ['C17'], 'store_client_mixin.py', 'StoreClientMixin.to_sqlite',
+  '        config = config if not config is None else self._config\n', '        config = config if not config is None else None\n', 'G.exporter-config-fallback', 'to_sqlite')
+N('EC-zip-csv-or-form', ['C17'], 'store_client_mixin.py', 'StoreClientMixin.to_zip_csv',
+  '        config = config if not config is None else self._config\n', '        if config is None:\n            config = self._config\n')
+
+# ---------------------------------------------------------------------------------- composite join key (C20)
+B('JK-columns-alternative', ['C20'], 'container_util.py', 'arrays_from_index_frame',
+  '    if columns is not None:\n        column_key', '    elif columns is not None:\n        column_key', 'I.join-key-sources', 'arrays_from_index_frame')
+B('JK-early-return-after-index', ['C20'], 'container_util.py', 'arrays_from_index_frame',
+  '        yield container.index.values_at_depth(depth_level)\n', '        yield container.index.values_at_depth(depth_level)\n        return\n', 'I.join-key-sources', 'arrays_from_index_frame')
+N('JK-columns-first', ['C20'], 'container_util.py', 'arrays_from_index_frame',
+  '    if columns is not None:\n        column_key = container.columns._loc_to_iloc(columns)\n        yield from container._blocks._slice_blocks(column_key=column_key)',
+  '    if not columns is None:\n        yield from container._blocks._slice_blocks(column_key=container.columns._loc_to_iloc(columns))')
